@@ -4,6 +4,7 @@ import numpy as np
 import networkx as nx
 from .read_cgsmiles import read_cgsmiles
 from .read_fragments import read_fragments
+from .cgsmiles_utils import split_bonding_descriptor
 from .graph_utils import (merge_graphs,
                           sort_nodes_by_attr,
                           annotate_fragments,
@@ -313,7 +314,7 @@ class MoleculeResolver:
 
                 # bonding descriptors are assumed to have bonding order 1
                 # unless they are specifically annotated
-                order = int(bonding[0][-1])
+                order = split_bonding_descriptor(bonding[0])[1]
                 if self.molecule.nodes[edge[0]].get('aromatic', False) and\
                    self.molecule.nodes[edge[1]].get('aromatic', False):
                     order = 1.5
